@@ -14,6 +14,10 @@ for name in sorted(os.listdir("/verif/seeded")):
     if main not in props:
         props = [main] + props
     p = subprocess.run(["python3", "/verif/tools/seed_recheck.py", name] + props[:1], stdout=subprocess.PIPE, stderr=subprocess.STDOUT, text=True)
+    if p.returncode == 2:
+        out[name] = {"property": props[0], "exit": None, "concrete_input": False, "note": "patch does not apply to the current tree: " + p.stdout.strip()[-160:]}
+        print(name, props[0], "DOES-NOT-APPLY", flush=True)
+        continue
     meta = json.load(open(os.path.join(d, "meta.json")))
     r = meta.get("checks_run", {}).get(props[0], {})
     lines = r.get("lines", [])
@@ -21,6 +25,7 @@ for name in sorted(os.listdir("/verif/seeded")):
     out[name] = {"property": props[0], "exit": r.get("exit"), "concrete_input": concrete}
     print(name, props[0], "exit", r.get("exit"), "concrete" if concrete else "NO-CONCRETE", flush=True)
 json.dump(out, open("/verif/seeded/SUMMARY.json", "w"), indent=1)
-missed = [n for n, r in out.items() if r["exit"] != 1]
+print("do not apply any more:", [n for n, r in out.items() if r["exit"] is None])
+missed = [n for n, r in out.items() if r["exit"] not in (1, None)]
 print("MISSED:", missed)
 print("no concrete input:", [n for n, r in out.items() if r["exit"] == 1 and not r["concrete_input"]])
